@@ -171,7 +171,7 @@ func NewWorld(cfg Config) (*World, error) {
 	}
 	sort.Strings(dnsList)
 	for s := uint32(0); s < cfg.NumShards; s++ {
-		nd, err := NewNode(s, cfg.NumShards, NodeCfg{DNS: dnsList, EnableUserNameChange: cfg.NameChange, ActivationEpoch: cfg.ActivationEpoch},
+		nd, err := NewNode(s, cfg.NumShards, NodeCfg{DNS: dnsList, EnableUserNameChange: cfg.NameChange, ActivationEpoch: cfg.ActivationEpoch, LateSchedule: cfg.LateSchedule},
 			RandSchedule(sr, 0), cfg.StartEpoch, payTable)
 		if err != nil {
 			return nil, err
@@ -295,7 +295,7 @@ func (w *World) Apply(ev Event) bool {
 		}
 		nd := w.Nodes[ev.Shard]
 		prev := nd.Clock.Current
-		nd.Clock.Confirm(ev.Epoch)
+		nd.Clock.Confirm(ev.Epoch, uint64(ev.PSeed))
 		w.Stats.EpochEvents++
 		switch {
 		case ev.Epoch < prev:
